@@ -1286,9 +1286,10 @@ def _family_observe(res, tally, cell, fam, fac, d0, d, cond, R, offset):
     eff, Sigma, dim, tag, cache = R["eff"], R["Sigma"], R["dim"], R["tag"], R["cache"]
     origin = fac["origin"]
     direct = origin == "direct"
+    full = direct and not R.get("light")      # complete point alphabet / input representations / quadrature
     passing = fac["pass"]
-    inside = R["inside"] if direct else R["inside"][:2]
-    outside = R["outside"] if direct else R["outside"][:2]
+    inside = R["inside"] if full else R["inside"][:(3 if direct else 2)]
+    outside = R["outside"] if full else R["outside"][:2]
 
     def ref(x):
         key = ("lp", np.asarray(x, float).tobytes())
@@ -1317,8 +1318,10 @@ def _family_observe(res, tally, cell, fam, fac, d0, d, cond, R, offset):
         st, v = _call(res, d.logd, x)
         ld.append(v if st == "ok" else np.nan)
     lp, rf, ld = np.array(lp), np.array(rf), np.array(ld)
-    if direct:
+    if full:
         res.outcomes.add("%s:%s:%.9g" % (fam, tag, lp[0]))
+    elif direct:
+        res.outcomes.add("%s:%s:evaluated" % (fam, R["light"]))
     else:
         res.outcomes.add("%s:origin=%s:offset=%s" % (fam, origin, "none" if offset is None else "nonzero" if abs(offset) > 1e-6 else "zero"))
     if res.sample is None:
@@ -1334,7 +1337,7 @@ def _family_observe(res, tally, cell, fam, fac, d0, d, cond, R, offset):
         tally.ok("logpdf", fac)
     else:
         tally.fail("logpdf", fac, msg, impl=lp, ref=rf, params={n: eff[n] for n in eff})
-    if direct and not upto_const:
+    if full and not upto_const:
         # far-tail points: the density itself under/overflows in floating point there, its logarithm does not
         for lab, x in _far_points(fam, eff, dim, Sigma):
             r = ref(x)
@@ -1393,8 +1396,8 @@ def _family_observe(res, tally, cell, fam, fac, d0, d, cond, R, offset):
         elif bad != "skip":
             tally.fail("pdf", fac, bad)
         pdf_good = bad is None
-        alts = [("x-list", inside[1].tolist())] if direct else []
-        if dim == 1 and direct:
+        alts = [("x-list", inside[1].tolist())] if full else []
+        if dim == 1 and full:
             alts += [("x-float", float(inside[1][0]))]
         for lab, xa in alts:
             st, v = _call(res, d.logpdf, xa)
@@ -1415,7 +1418,7 @@ def _family_observe(res, tally, cell, fam, fac, d0, d, cond, R, offset):
                     tally.ok("support", f2)
                 else:
                     tally.fail("support", f2, "logpdf = %r at a point %s the support (x=%s)" % (v, side, x.tolist()))
-                if not direct and v == -INF:      # (a function of logpdf: examined where logpdf vanishes)
+                if not full and v == -INF:      # (a function of logpdf: examined where logpdf vanishes)
                     st, v = _call(res, d.pdf, x)
                     if st == "ok":
                         if v == 0.0:
@@ -1451,7 +1454,7 @@ def _family_observe(res, tally, cell, fam, fac, d0, d, cond, R, offset):
                                (x.tolist(), v, side, r))
     # 1-D: quadrature (other origins: the object obtained by reducing a joint distribution with one fixed variable)
     if good and dim == 1 and passing in ("plain", "callable") and not upto_const and fam != "SmoothedLaplace" \
-            and (direct or origin == "joint1"):
+            and (full or origin == "joint1"):
         _family_quadrature(res, tally, fac, d, fam, eff, light=not direct, with_pdf=pdf_good)
     return bool(good)
 
